@@ -2,12 +2,14 @@ package props
 
 import (
 	"context"
+	"encoding/json"
 	"errors"
 	"fmt"
 	"io"
 	"math"
 	"os"
 	"reflect"
+	"strconv"
 
 	"verifharness/core"
 	"verifharness/ref"
@@ -45,7 +47,7 @@ type funcErr func() string
 func (e funcErr) Error() string { return "func error" }
 
 // errKinds is the number of error kinds (see mkErr and delegatedErr).
-const errKinds = 18
+const errKinds = 23
 
 // sameErr is interface identity for comparable errors and identity of the underlying
 // storage for the uncomparable kinds (== would panic on them).
@@ -68,8 +70,19 @@ func sameErr(got, want error) bool {
 	case sliceErr, mapErr, funcErr:
 		return false
 	}
+	if got == want && want == snapFor && want != nil {
+		// same pointer: its contents must be what the handler put there
+		return reflect.DeepEqual(reflect.ValueOf(got).Elem().Interface(), snap)
+	}
 	return got == want
 }
+
+// snapFor / snap: the most recent pointer-typed error made by mkErr and a copy of the struct
+// it points to (the traversal must neither replace nor edit it).
+var (
+	snapFor error
+	snap    interface{}
+)
 
 // mkErr builds a fresh error value of the given kind (all kinds are comparable with ==).
 func mkErr(kind int64) error {
@@ -94,6 +107,26 @@ func mkErr(kind int64) error {
 		return context.Canceled
 	case 17:
 		return os.ErrNotExist
+	case 18, 19, 20, 21, 22:
+		// pointer-typed errors of the standard library with position / context fields, as a
+		// handler that delegates a member to encoding/json, strconv or the file system returns
+		var e error
+		switch kind {
+		case 18:
+			var v interface{}
+			e = json.Unmarshal([]byte(`{"a" 1}`), &v) // *json.SyntaxError
+		case 19:
+			var v struct{ A int }
+			e = json.Unmarshal([]byte(`{"A":"x"}`), &v) // *json.UnmarshalTypeError
+		case 20:
+			_, e = strconv.Atoi("12x") // *strconv.NumError
+		case 21:
+			e = &os.PathError{Op: "open", Path: "/nonexistent/x", Err: os.ErrNotExist}
+		default:
+			e = &json.MarshalerError{Type: reflect.TypeOf(0), Err: io.EOF}
+		}
+		snapFor, snap = e, reflect.ValueOf(e).Elem().Interface()
+		return e
 	}
 	switch kind % 4 {
 	case 0:
